@@ -379,6 +379,7 @@ def c05_oracle(case, ans):
 class C05(PropBase):
     pid = "C05"
     coq_dirs = ["Base", "Gen", "C08", "C05"]
+    translators = ["unwind_consts.py"]
     bins = ["c05"]
     impl_timeout = 300
     rule = ("cases = (cpu, os, context registers + validity, stack base + bytes, modules with optional symbol file of the "
